@@ -21,7 +21,7 @@ func init() {
 			"(also >= 100 operations), explicit flush/log rotation on the primary, large values, 0.3-1.4MB values in transactions (catch-up chunks limited by bytes, not entries)} x join time {before, during, after the writes} x replica event {none, clean restart on the " +
 			"same directory, link cut and restore through a controllable TCP proxy} x 1-2 replicas. Convergence is restated as bounded progress: after the primary stops writing and the link " +
 			"is up, a full scan of every replica must become equal to the primary's - the wait ends when the replica's contents have not changed for 60s (normal convergence: 1-30s; the stock replica fetches ~100 entries per second; hard cap 10 min) - and still be equal 2s later. A stall is a violation whose witness holds both scans' first " +
-			"difference and the replica's status; each scenario class has its own verdict. distinct = hash(scenario parameters); non-trivial = the primary wrote >= 1 transaction or > 100 " +
+			"difference and the replica's status; each scenario class has its own verdict. Further scenarios: 0.3-1.4MB values in transactions (byte-limited catch-up chunks), a lone write after the replicas went idle (every 6th scenario; every second instance preceded by a flush), a replica with the stock reconnect settings idle for 22s before the writes (rate bound 40s + 6s per 100 entries). distinct = hash(scenario parameters); non-trivial = the primary wrote >= 1 transaction or > 100 " +
 			"entries or rotated its log, and the replica really received entries over the network",
 		Assumptions: []string{"bounded liveness: 60s without any change of the replica's contents is >= 10x the interval between two catch-up batches; it is reported as a violation with the witness, not proven divergence"},
 		NumCases: func(tier string) int {
